@@ -6,6 +6,11 @@ import json, glob, os
 import re
 # rule-based default labels (a hand-written entry in triage.json wins); each rule was checked against the code once
 RULES = [
+    (r'swap_bytes', 'equivalent: byte swapping is a no-op on this little-endian host'),
+    (r'^return -0;$|^return -2;$|^return \(\w+\) -[02];$|^return (TRUE|FALSE|0|1);$|^return \(void \*\) 1;$', 'outside: return value of an invalid-argument / failed-allocation / failed-system-call branch that the generated histories of the anchored property do not enter (C18 enumerates the allocation failures)'),
+    (r'^[01],$', 'outside: native error code argument of p_error_set_error_p on an error path'),
+    (r'src_line\[[0-3]\] [!=]= 0x(FF|00|FE)|^bom_shift = 4', 'equivalent or outside: UTF-32 BOM branches (the little-endian one is unreachable behind the UTF-16 test; lines starting with NUL bytes are not part of the documented grammar)'),
+    (r'\[i [-+] 0\]', 'equivalent: index i - 0 equals i + 0'),
     (r'p_malloc0? \(.*== \(void \*\) 1|p_strdup \(.*== \(void \*\) 1|p_realloc \(.*== \(void \*\) 1', 'other-property(C18): the allocation-failure branch; only reachable with a failing allocator (C18 enumerates it)'),
     (r'^;$', None),  # statement deletion: decided by what was deleted (old text), see below
     (r'== \(void \*\) 1\b|!= \(void \*\) 1\b', 'outside: NULL-argument / NULL-member guard; the listed properties never pass NULL objects'),
@@ -18,6 +23,7 @@ def rule_label(s):
     new, old = s['new'], s['old']
     for pat, lab in RULES:
         if lab and re.search(pat, new): return lab + ' (rule)'
+    if re.search(r'^bom_shift = 4', old): return RULES[3][1] + ' (rule)'
     if new == ';' or s['kind'] in ('negate', 'rel', 'const'):
         for pat, lab in OLD_RULES:
             if re.search(pat, old): return lab + ' (rule)'
@@ -31,6 +37,12 @@ for f in sorted(glob.glob('/verif/automut/*.json')):
     if f.endswith('triage.json'): continue
     d = json.load(open(f))
     files.setdefault(d['file'], []).append(d)
+# a survivor of the main sweep that a re-run (fixed driver / other responsible property) caught
+recaught = {}
+for fn, ds in files.items():
+    for d in ds:
+        for c in d.get('caught_detail', []):
+            if c.get('by') and c['by'] != 'BUILD': recaught[(fn, c['line'], c['new'])] = (c['by'], c.get('verdict', '')[:90])
 out = ['# Systematic mutant sweep (tools/automut.py)', '',
        'First-order mutants (relational / logical / arithmetic operator replacement, condition negation, constant changes, statement deletion), a seeded random sample per source file, each run against the quick tier of the properties anchored in that file. "Survived" = no VIOLATION line. Survivors are triaged by hand below; a survivor that another listed property is responsible for was re-run against that property (`--survivors-of`).', '',
        '| file | properties | mutants run | caught | build errors | survived |', '|---|---|---|---|---|---|']
@@ -46,7 +58,8 @@ for fn, ds in files.items():
             detail.append('\n## %s (%s): %d survivors\n' % (d['file'], ','.join(d['props']), d['survived']))
             for s in d['survivors']:
                 k = '%s:%d:%s' % (d['file'], s['line'], s['new'])
-                lab = tri.get(k) or rule_label(s)
+                rc_ = recaught.get((d['file'], s['line'], s['new']))
+                lab = tri.get(k) or (('caught on a re-run by %s (%s)' % rc_) if rc_ else None) or rule_label(s)
                 if not lab: unlabelled += 1
                 detail.append('* L%d `%s`  (was `%s`) — %s' % (s['line'], s['new'], s['old'], lab or '**untriaged**'))
 out.append('')
